@@ -24,7 +24,7 @@ CLAIMS = {
         text=("Partial: the separable conversion kernels are proved over their full input domain - WidthClass::try_from over all u16 (no overflow on any path, so debug and "
               "release agree; Ok <=> 1..=9) and create_component_ref_gid over all finite f64 offsets (a stored offset is the rounded source value or the call is an error, never a clamp) "
               "and all 2x2 entries in [-2,2] (within one 2.14 ulp). CBMC's automatic overflow/cast checks are the 'optimised and debug builds agree' clause. "
-              "GlyphInstance::height / vertical_origin (vmtx advance and origin) are proved exact for every representable value and proved to saturate, never wrap, otherwise; that they are *stored clamped instead of rejected* beyond the field's range is a genuine, recorded (not repaired: infallible signature) defect - the check prints two KNOWN-FINDING lines for it and exits 0. MetricsBuilder::update's clamps and overflow freedom are cross-listed from C17. "
+              "GlyphInstance::height / vertical_origin (vmtx advance and origin) are proved exact for every representable value and proved to saturate, never wrap, otherwise; that they are *stored clamped instead of rejected* beyond the field's range is a genuine, recorded (not repaired: infallible signature) defect - the check prints KNOWN-FINDING lines for it and exits 0. can_reuse_metrics (the u16 advance rounding that decides USE_MY_METRICS) is proved, for every f64 transform and every pair of advances that fit, to hold iff the stored advances are equal, the 2x2 is the identity and dx rounds to 0, and never to equate an advance beyond 65535 with a representable one; WidthClass::nearest (OS/2 usWidthClass from the wdth default) is proved to be a valid class 1..=9 for every f64 and the nearest class for |p| <= 32768. MetricsBuilder::update's clamps and overflow freedom are cross-listed from C17. "
               "Other narrowing sites named by the property (advance widths, kerning/anchor values, glyph count) are inlined in Context-taking job bodies and are NOT covered."),
         note=_KANI_NOTE + "Upstream guarantee |2x2 entries| <= 2 is a precondition, not proved.",
     ),
